@@ -22,7 +22,7 @@ if VERIF not in sys.path:
 from sim import rng as simrng  # noqa: E402
 from sim.clock import Clock, SimTimeout  # noqa: E402
 
-CHILD_WALL_S = 60          # harness safety only; never a verdict
+CHILD_WALL_S = 400         # harness safety only; never a verdict
 SHRINK_EVALS = 500
 SHRINK_TICKS = 25_000_000   # simulated time a single minimisation may spend
 MAX_BAD_CASES = 10          # a round stops early once this many cases violated (keeps broken trees cheap)
@@ -137,7 +137,7 @@ def minimise(prop, case, cls, site, hashseed):
             evals += 1
             if evals > SHRINK_EVALS or spent > SHRINK_TICKS:
                 break
-            r = run_case_any(prop, cand, hashseed, wall=30)
+            r = run_case_any(prop, cand, hashseed, wall=120)
             spent += r.get('ticks', 0) if isinstance(r, dict) else 0
             if _has(r, cls, site):
                 case = cand
